@@ -267,6 +267,12 @@ func NewFloatFromString(typ *types.FloatType, s string) (*Float, error) {
 		if err != nil {
 			return nil, errors.WithStack(err)
 		}
+		// big.Float has an unbounded exponent range; round to the nearest double
+		// (as LLVM does), so that decimal literals in the subnormal range denote
+		// the double they are read as.
+		if f64, err := strconv.ParseFloat(s, 64); err == nil {
+			x = big.NewFloat(f64).SetPrec(precision)
+		}
 		c := &Float{
 			Typ: typ,
 			X:   x,
